@@ -321,3 +321,19 @@ ENTRIES["C14"]["text"] += (" After the repair of D23 the skip list is the set of
 ENTRIES["C10"]["text"] += (" Props/C10b ([R]): the geometric fact behind the pre-filter hypothesis -- if two bodies contained in their bounding boxes have two points within r, "
     "the box of either body loosened by r intersects the box of the other (prefilter_conservative, prefilter_conservative_sets, rejected_imp_far). Props/TieColl: the "
     "per-pair decision of the model is CollisionTask::collides as translated from the current source.")
+
+# ---- round 7 -----------------------------------------------------------------------------------------
+ENTRIES["C11"]["text"] += (" Props/Tie (shape_is_source, shape_facade_is_source, [G]): KinematicsWithShape as the CURRENT source text defines it -- each inverse entry "
+    "point is the same entry point of the wrapped stack followed by the order-preserving filter remove_collisions, forward / link poses / limits / singularity "
+    "are those of the stack, and collides / collision_details / near / non_colliding_offsets hand the question to the body unchanged -- is the model's shape node "
+    "(regenerated by tools/rs2lean_wrap.py on every run, equations by rfl).")
+ENTRIES["C10"]["text"] += (" Props/TieColl.minDistance_is_source ([G]): the pair's safety distance as SafetyDistances::min_distance looks it up in the CURRENT source (exact key, "
+    "reversed key, environment default, robot default, in that order) is the model's Safety.minDistance. The reports are asked through the KinematicsWithShape "
+    "facade as well as through the body; the brute-force oracle runs the distance query with the bodies in either order (threshold = the two answers disagree "
+    "or are within 1e-4 relative), which makes micrometre gaps against micrometre safety distances decidable.")
+ENTRIES["C14"]["text"] += (" Props/Tie.wrapper_reports_are_source ([G]): the joint limits a tool / base / frame / parallelogram wrapper reports in the CURRENT source are those of "
+    "the robot it wraps, so the limit filter of non_colliding_offsets sees the robot's limits through any stack; the offsets are also asked through the "
+    "KinematicsWithShape facade and with a frame / tool around the kinematics.")
+ENTRIES["C04"]["text"] += (" Sampled additionally: the sorting weight of a Constraints object equals the requested number whatever constructor built it (C04.weight_kept; "
+    "whole-degree limits go through from_degrees), a robot with shape keeps the order of its stack's answers (C11.exact_filter), and the wrist-singular "
+    "continuation families of C05 (previous whole turns away) run under C04 with C05.first_eq_prev / C05.equal_shift.")
